@@ -67,7 +67,7 @@ fn native_misc_registry0() -> Vec<(&'static str, fn(&mut crate::src::EnumSrc))> 
         ("nschemacodec", (|s: &mut crate::src::EnumSrc| crate::native_schemacodec::schema_codec(s)) as fn(&mut crate::src::EnumSrc)),
         // n(nledger_files, "C15", "savefile_abi::verify_compatiblity; AbiTraitDefinition::verify_backward_compatible; verify_compatible_with_old_impl; Serialize/Deserialize for AbiTraitDefinition (ledger files); diff_schema", "12 scenarios of 2-4 successive runs over 9 editions of one interface (unchanged, new versioned field, new method, boxed-future return + closure argument, changed argument count / argument type / return type, removed method, break of the newest recorded version only) on a real temporary directory");
         ("nledger_files", (|s: &mut crate::src::EnumSrc| crate::native_abi::ledger_files(s)) as fn(&mut crate::src::EnumSrc)),
-        // n(nmal_library, "C06", "Deserialize for String, Vec<T>, HashMap, BTreeMap, Option, VecDeque, BinaryHeap, BTreeSet, HashSet, Box<[T]>, Arc<[T]>, Arc<str>, ArrayVec, SmallVec, BitVec, tuples, char, bool, Result, IndexMap, IndexSet, IpAddr, Duration; Deserializer::read_string; regular_deserialize_vec", "24 valid encodings of small values, each with: every single-byte replacement by one of 6 values (length-like 8-byte fields: low byte only, 5 values), every truncation, 1-2 appended bytes");
+        // n(nmal_library, "C06", "Deserialize for String, Vec<T>, HashMap, BTreeMap, Option, VecDeque, BinaryHeap, BTreeSet, HashSet, Box<[T]>, Arc<[T]>, Arc<str>, ArrayVec, SmallVec, BitVec, tuples, char, bool, Result, IndexMap, IndexSet, IpAddr, Duration; Deserializer::read_string; regular_deserialize_vec", "35 valid encodings of small values, each with: every single-byte replacement by one of 6 values (length-like 8-byte fields: low byte only, 5 values), every truncation, 1-2 appended bytes");
         ("nmal_library", (|s: &mut crate::src::EnumSrc| crate::native_misc::malformed_library(s)) as fn(&mut crate::src::EnumSrc)),
         // n(nmal_bitvec, "C06", "<bit_vec::BitVec as Deserialize>::deserialize", "declared bit counts from the small u64 domain over a 4-byte storage");
         ("nmal_bitvec", (|s: &mut crate::src::EnumSrc| crate::collections::mal_bitvec_len(s)) as fn(&mut crate::src::EnumSrc)),
